@@ -456,14 +456,38 @@ for src in c18.PERM_FORMULAS + c18.HASH_FORMULAS:
             drop = set()
             r = c18._safe(lambda: model_matrix(src, w[d], output=output, drop_rows=drop))
             out['%%s|%%s|%%s' %% (src, d, output)] = [c18.result_digest(r), sorted(int(i) for i in drop)]
+# a formula given as a SET of terms, the recorded ORDER of transform state, and which factor a 'raise' policy names
+w = c18.make_world()
+r = c18._safe(lambda: model_matrix({'a', 'b', 'A', 'a:b'}, w['D1']))
+out['set-spec|D1'] = [c18.result_digest(r), list(getattr(getattr(r, 'model_spec', None), 'column_names', []))]
+r = c18._safe(lambda: model_matrix('center(a) + center(b) + scale(y) + C(A)', w['D1']))
+out['state-order|D1'] = list(r.model_spec.transform_state) if not isinstance(r, Exception) else repr(r)
+r = c18._safe(lambda: model_matrix('b + A + a', c18.make_world()['D2'], na_action='raise'))
+out['raise-names|D2'] = str(r)[:200]
+# a spec pickled by ANOTHER interpreter (hash seed 0) must behave like a spec built here
+import pickle, base64
+from formulaic.parser.types import Term, Factor
+blob = %r
+if blob:
+    spec = pickle.loads(base64.b64decode(blob))
+    def lookups(sp):
+        res = []
+        for probe in (lambda: sp.term_indices[Term([Factor('b'), Factor('a')])], lambda: sp.get_term_indices('b:a'), lambda: list(sp.subset('a').column_names),
+                      lambda: sp.get_slice('a'), lambda: c18.result_digest(sp.get_model_matrix(c18.make_world()['D1']))):
+            res.append(repr(c18._safe(probe)))
+        return res
+    here = model_matrix('a + b + b:a + A', c18.make_world()['D1']).model_spec
+    out['foreign-pickle'] = [lookups(spec), lookups(here)]
+else:
+    out['pickle-blob'] = base64.b64encode(pickle.dumps(model_matrix('a + b + b:a + A', c18.make_world()['D1']).model_spec)).decode()
 print(json.dumps(out, sort_keys=True))
 """
 
 
-def run_probe(seed):
+def run_probe(seed, blob=""):
     verif = os.path.dirname(os.path.dirname(os.path.abspath(__file__)))
     env = dict(os.environ, PYTHONHASHSEED=str(seed))
-    p = subprocess.run([sys.executable, "-c", PROBE % (verif, os.environ.get("VERIF_REPO", ""))], env=env, capture_output=True, text=True, timeout=600)
+    p = subprocess.run([sys.executable, "-c", PROBE % (verif, os.environ.get("VERIF_REPO", ""), blob)], env=env, capture_output=True, text=True, timeout=600)
     if p.returncode != 0:
         raise RuntimeError("probe failed: " + p.stderr[-2000:])
     return json.loads(p.stdout.strip().splitlines()[-1])
@@ -472,9 +496,17 @@ def run_probe(seed):
 def drv_seeds(c, ctx, col):
     seed = c.pick(ctx["seeds"])
     base = ctx["baseline"]
-    got = run_probe(seed)
+    got = run_probe(seed, base.get("pickle-blob", ""))
     col.interesting()
+    fp = got.get("foreign-pickle")
+    if fp is not None and fp[0] != fp[1]:
+        col.violation("hash-seed PYTHONHASHSEED=%s foreign-pickle" % seed, {"seed": seed, "spec_pickled_under_seed_0": fp[0], "spec_built_here": fp[1],
+                                                                           "probes": ["term_indices[Term(b, a)]", "get_term_indices('b:a')", "subset('a').column_names", "get_slice('a')", "get_model_matrix(D1)"]},
+                      sig="pickled-spec-differs-in-another-interpreter")
+        return
     for k in base:
+        if k == "pickle-blob":
+            continue
         if got.get(k) != base[k]:
             col.violation("hash-seed PYTHONHASHSEED=%s %s" % (seed, k), {"seed": seed, "case": k, "got": got.get(k), "seed0": base[k]},
                           sig="hash-seed-dependent-result")
